@@ -91,8 +91,11 @@ CLAIMED = {
          "Decides the structural core of translation and lattice-translation invariance that the property itself names: in 20 C/C++ kernels and 12 Python functions every value derived from a position array reaches a product, norm, "
          "math function, comparison with a non-position or result array only after the subtraction of two positions (or of their mean / centre of geometry); every rounding call of a minimum-image reduction sees a difference, not a position; "
          "the cell list hashes wrapped positions. Rotation invariance and float32 cancellation at large offsets are numerical and are not decided.", _NOTE, "DESIGN.md §4 C09"),
+ "C16": ("algebraic value numbering of the C and Python sources against the defining formulas (induction step of the single-pass moment recurrences for a symbolic count; rational normal forms of the shape, shell-volume, Karplus and density expressions), dataflow checks of the flattened atom-pair bookkeeping",
+         "Decides, for all inputs and in exact arithmetic, that the formula evaluated is the defining one: the online moment update preserves u = S1/n, M2 = S2 - S1^2/n, M3 = S3 - 3 S1 S2/n + 2 S1^3/n^2 for symbolic n (base case and read-outs included); "
+         "DRID pushes reciprocal distances of the non-bonded partners and stores (mean, sqrt, cbrt); gyration tensor, asphericity, acylindricity, relative shape anisotropy; centre of geometry / mass and the radius of gyration about the centre that belongs to its weights; "
+         "compute_contacts membership, product, counts, offsets, min / soft-min and label lock-step; density conversion; RDF bin centres, shell volume and normalisation; the Karplus relation and its tables. "
+         "Floating-point agreement with the closed forms, eigen-solver and histogram internals, and the descriptors listed under not_decided (nematic order, dipoles, inertia tensor) are NOT decided.", _NOTE, "DESIGN.md §4 C16"),
 }
 _PENDING = "check not built yet in this round (design in DESIGN.md §4); will be claimed when its rules run clean"
 NA = {}
-NA["C16"] = ("every clause is numerical equality of computed arrays with closed-form expressions; no structural "
-             "necessary condition covers more than one of the fifteen functions (DESIGN.md §5)")
